@@ -300,3 +300,8 @@ package eval
 //@   sitesonly
 //@   inline 2 1
 //@   callsite[C10] IsEqualObject !inscope(variant)
+
+//@ # C17: the block evaluator is one shared instance that serves every block, nested ones included; it
+//@ # carries no state from one evaluation into another (what a block must restore lives in the
+//@ # closure that prepareBlockScope returns)
+//@ stateless[C17] ti/eval.Do
